@@ -59,6 +59,24 @@ InboundToTun(svcs, isolate, who, proto, dport, variant, flow, fl) ==
   /\ \/ PolicyAdmits(svcs, proto, EffPort(proto, dport), who, fl)
      \/ (flow /\ (~isolate \/ who \in FriendsOf(fl)))      \* reply of a flow the local host opened (and was allowed to open)
 
+(* ---- Delivery histories of one flow.  "... only if it came in a frame that unsealed under the sender's session":   *)
+(* a sealed frame unseals at its receiver at most once (the replay protection of the session, C03).  A frame whose      *)
+(* packet was handed to the local interface had unsealed; the same frame delivered again - at once, inside the 64-frame *)
+(* window, or after the sender has moved on by more than the window, when the receiver cannot tell any more whether it   *)
+(* has seen the number - does not unseal, so its packet may not be handed on a second time, whatever its (valid,         *)
+(* decryptable) content and whatever the policy says about it.                                                          *)
+(*   handedBefore    - an earlier delivery of this very frame was handed to the local interface                         *)
+(*   deliveredBefore - this very frame was delivered before (whatever became of it)                                     *)
+(*   late            - a frame the sender sealed AFTER this one was delivered before it (reordering).  The property is   *)
+(*                     silent on whether a late frame still unseals (C03: inside the window it does, behind it the      *)
+(*                     receiver is free to refuse), so a late frame MAY be handed on if the policy admits it.            *)
+(* A frame that is neither (sealed after everything delivered so far, delivered for the first time) is what every other  *)
+(* case of this module delivers: the policy alone decides, also in the middle of a history of redeliveries.              *)
+MayHandOn(svcs, isolate, who, proto, dport, flow, fl, handedBefore) ==
+  ~handedBefore /\ InboundToTun(svcs, isolate, who, proto, dport, "ok", flow, fl)
+MustHandOn(svcs, isolate, who, proto, dport, flow, fl, deliveredBefore, late) ==
+  ~deliveredBefore /\ ~late /\ InboundToTun(svcs, isolate, who, proto, dport, "ok", flow, fl)
+
 OutDsts == {"f1", "o1", "internal", "non-mycoria", "multicast"}
 OutboundToMesh(isolate, srcIsMe, dst) ==
   /\ srcIsMe
